@@ -177,6 +177,23 @@ func render(idx bleve.Index) (string, error) {
 			sb.WriteString(";\n")
 		}
 	}
+	// the unscored path (Score "none") takes different searchers (unadorned postings, bitmap algebra):
+	// ids and Total must not depend on the layout either
+	for qi, q := range queries() {
+		req := bleve.NewSearchRequest(q)
+		req.Size = 20
+		req.Score = "none"
+		req.SortBy([]string{"_id"})
+		res, err := idx.Search(req)
+		if err != nil {
+			return "", fmt.Errorf("query %d score none: %v", qi, err)
+		}
+		fmt.Fprintf(&sb, "q%d.none total=%d max=0:", qi, res.Total)
+		for _, h := range res.Hits {
+			fmt.Fprintf(&sb, " %s=0", h.ID)
+		}
+		sb.WriteString(";\n")
+	}
 	cnt, err := idx.DocCount()
 	if err != nil {
 		return "", err
@@ -254,6 +271,7 @@ var unsafe2 = map[string]interface{}{"unsafe_batch": true, "scorchPersisterOptio
 func layouts(quick bool) []layout {
 	ls := []layout{
 		{name: "disk-aggressive-merge", disk: true, cfg: map[string]interface{}{"scorchMergePlanOptions": bx.AggressiveMergePlan}},
+		{name: "disk-nomerge+forcemerge-before-last-operation", disk: true, cfg: map[string]interface{}{"scorchMergePlanOptions": bx.NoMergePlan}, post: "forcemerge-before-last"},
 		{name: "disk-partial-merge", disk: true, cfg: map[string]interface{}{"scorchMergePlanOptions": bx.PartialMergePlan}},
 		{name: "disk-operations-land-while-merge-in-flight", disk: true, gated: true, cfg: map[string]interface{}{"scorchMergePlanOptions": bx.AggressiveMergePlan}},
 		{name: "disk-nomerge+forcemerge+reopen", disk: true, cfg: map[string]interface{}{"scorchMergePlanOptions": bx.NoMergePlan}, post: "forcemerge+reopen"},
@@ -304,6 +322,25 @@ func build(l layout, ops []op, parts [][]int, dir string) (bleve.Index, error) {
 	idx, err := bleve.NewUsing(p, bleve.NewIndexMapping(), scorch.Name, scorch.Name, cfg)
 	if err != nil {
 		return nil, err
+	}
+	if l.post == "forcemerge-before-last" && len(parts) >= 2 {
+		// [merged segment, newer segment]: everything but the last batch is force-merged first
+		if err := apply(idx, ops, parts[:len(parts)-1]); err != nil {
+			idx.Close()
+			return nil, err
+		}
+		bx.Quiesce(idx, 3*time.Second)
+		if err := bx.Scorch(idx).ForceMerge(context.Background(), nil); err != nil {
+			idx.Close()
+			return nil, fmt.Errorf("ForceMerge: %v", err)
+		}
+		bx.Quiesce(idx, 3*time.Second)
+		if err := apply(idx, ops, parts[len(parts)-1:]); err != nil {
+			idx.Close()
+			return nil, err
+		}
+		bx.Quiesce(idx, 3*time.Second)
+		return idx, nil
 	}
 	if err := apply(idx, ops, parts); err != nil {
 		idx.Close()
@@ -588,7 +625,7 @@ func Run(r *mc.Run) {
 	// operations (merge parked in flight).
 	var multi []layout
 	for _, l := range lays {
-		if l.name == "disk-partial-merge" || l.gated || l.name == "disk-aggressive-merge" {
+		if l.name == "disk-partial-merge" || l.gated || l.name == "disk-aggressive-merge" || l.post == "forcemerge-before-last" {
 			multi = append(multi, l)
 		}
 	}
